@@ -81,4 +81,4 @@ def run(ctx):
         if o['rule'] == 'C10-saturate':
             o['rule'] = 'C06-clamp'
             ctx.obligations.append(o)
-    ctx.minimum('C06-clamp', 7)
+    ctx.minimum('C06-clamp', 9)
